@@ -71,12 +71,17 @@ func (r *Reader) Read() (seq.Sequence, error) {
 	for {
 		var err error
 		if buff, isPrefix, err = r.r.ReadLine(); err != nil {
-			if err != io.EOF || r.working == nil {
-				return nil, err
+			if err != io.EOF || len(line) == 0 {
+				if err != io.EOF || r.working == nil {
+					return nil, err
+				}
+				s, err = r.working, r.err
+				r.working = nil
+				return s, err
 			}
-			s, err = r.working, r.err
-			r.working = nil
-			return s, err
+			// The input ended in an unterminated line that exactly filled
+			// the read buffer, so it is still pending: handle it now.
+			buff, isPrefix = nil, false
 		}
 		line = append(line, buff...)
 		if isPrefix {
